@@ -2041,13 +2041,21 @@ class TLSConnection(TLSRecordLayer):
 
             if cipherSuite in CipherSuite.dhAllSuites:
                 self.dhGroupSize = numBits(serverKeyExchange.dh_p)
-                if self.dhGroupSize < settings.minKeySize:
+                # a named group we advertised ourselves is acceptable
+                # whatever its size
+                offered_ffdhe = [RFC7919_GROUPS[getattr(GroupName, i) - 256]
+                                 for i in settings.dhGroups]
+                named_group = (serverKeyExchange.dh_g,
+                               serverKeyExchange.dh_p) in offered_ffdhe
+                if not named_group and \
+                        self.dhGroupSize < settings.minKeySize:
                     for result in self._sendError(
                             AlertDescription.insufficient_security,
                             "Server's DH prime too small: %d" %
                             self.dhGroupSize):
                         yield result
-                if self.dhGroupSize > settings.maxKeySize:
+                if not named_group and \
+                        self.dhGroupSize > settings.maxKeySize:
                     for result in self._sendError(
                             AlertDescription.insufficient_security,
                             "Server's DH prime too large: %d" %
